@@ -1,0 +1,70 @@
+//! Verification hooks (compiled only with `--cfg scylla_verif`).
+//!
+//! Nothing in here changes the behaviour of the driver. The module offers
+//! * [`trace`]: an off-by-default event tracer used at linearization points of
+//!   the code under verification. The installed sink may block inside `emit`
+//!   (a gate), which lets an external harness force an interleaving.
+//! * thin public wrappers over crate-private items, so that an external harness
+//!   can drive the real objects. The wrappers call the real functions.
+
+pub mod trace {
+    use std::cell::RefCell;
+    use std::sync::atomic::{AtomicBool, Ordering};
+    use std::sync::{Arc, RwLock};
+
+    /// One traced event: a source (component), an event name and scalar fields.
+    #[derive(Debug, Clone)]
+    pub struct Event<'a> {
+        pub src: &'static str,
+        pub name: &'static str,
+        pub fields: &'a [(&'static str, i64)],
+    }
+
+    pub type Sink = dyn Fn(&Event<'_>) + Send + Sync;
+
+    static ANY_INSTALLED: AtomicBool = AtomicBool::new(false);
+    static GLOBAL: RwLock<Option<Arc<Sink>>> = RwLock::new(None);
+    thread_local! {
+        static LOCAL: RefCell<Option<Arc<Sink>>> = const { RefCell::new(None) };
+    }
+
+    /// Installs (or removes) the process-wide sink.
+    pub fn install_global(sink: Option<Arc<Sink>>) {
+        if sink.is_some() {
+            ANY_INSTALLED.store(true, Ordering::SeqCst);
+        }
+        *GLOBAL.write().unwrap() = sink;
+    }
+
+    /// Installs (or removes) a sink for the calling thread only; it takes
+    /// precedence over the global one.
+    pub fn install_local(sink: Option<Arc<Sink>>) {
+        if sink.is_some() {
+            ANY_INSTALLED.store(true, Ordering::SeqCst);
+        }
+        LOCAL.with(|l| *l.borrow_mut() = sink);
+    }
+
+    /// Emits one event. A single relaxed load when no sink was ever installed.
+    #[inline]
+    pub fn emit(src: &'static str, name: &'static str, fields: &[(&'static str, i64)]) {
+        if !ANY_INSTALLED.load(Ordering::Relaxed) {
+            return;
+        }
+        emit_slow(src, name, fields);
+    }
+
+    #[cold]
+    fn emit_slow(src: &'static str, name: &'static str, fields: &[(&'static str, i64)]) {
+        let ev = Event { src, name, fields };
+        let local = LOCAL.with(|l| l.borrow().clone());
+        if let Some(sink) = local {
+            sink(&ev);
+            return;
+        }
+        let global = GLOBAL.read().unwrap().clone();
+        if let Some(sink) = global {
+            sink(&ev);
+        }
+    }
+}
